@@ -125,7 +125,7 @@ def _pre(ctx):
     if not num(off) or mode not in RMODES:
         REC.skip(mon, "outside-domain-args")
         return SKIP
-    if not snap.wellformed_tier_snap(s) or s["min"] < 0:
+    if not snap.wellformed_tier_snap(s):
         REC.skip(mon, "ill-formed-receiver")
         return SKIP
     return (mon, s, off, mode)
